@@ -4,7 +4,6 @@ import (
 	"context"
 	"encoding/json"
 	"fmt"
-	"hash/fnv"
 	"io/fs"
 	"os"
 	"path/filepath"
@@ -45,6 +44,9 @@ type caseData struct {
 	DeadlineMS int    `json:"dl,omitempty"`     // context deadline of the evaluation (default 250 ms)
 	FullStack  bool   `json:"fullstack,omitempty"`
 	Enum       bool   `json:"enum,omitempty"` // not an input: enumerate builtins and methods
+	Key        string `json:"key,omitempty"`  // the case id (written to the stage log)
+
+	Script *scriptSpec `json:"script,omitempty"` // how a script was put together (for control variants)
 }
 
 type panicObs struct {
@@ -66,6 +68,7 @@ type obs struct {
 	ErrText  string     `json:"err,omitempty"`
 	Enum     *enumOut   `json:"enum,omitempty"`
 	TimedOut bool       `json:"timed_out,omitempty"`
+	MS       int64      `json:"ms"`
 }
 
 // ---------------------------------------------------------------------------------------
@@ -110,12 +113,6 @@ func procInit() {
 			}
 		}()
 	})
-}
-
-func dataHash(b []byte) string {
-	h := fnv.New64a()
-	h.Write(b)
-	return fmt.Sprintf("%016x", h.Sum64())
 }
 
 type run struct {
@@ -206,7 +203,7 @@ func worker(kind string, data json.RawMessage) any {
 	caseBegan.Store(time.Now().UnixNano())
 	defer caseBegan.Store(0)
 
-	r := &run{hash: dataHash(data), o: o}
+	r := &run{hash: c.Key, o: o}
 	r.mark("generate")
 	var src string
 	if c.Src != nil {
@@ -219,7 +216,9 @@ func worker(kind string, data json.RawMessage) any {
 		}
 	}
 	o.SrcLen = len(src)
+	t0 := time.Now()
 	r.source(&c, src)
+	o.MS = time.Since(t0).Milliseconds()
 	if len(o.Panics) > 0 {
 		o.Src = truncStr(src, 20000)
 	}
